@@ -55,7 +55,9 @@ func regions(t *target, b base) []region {
 		off += l
 	}
 	if t.Mode == "envelope" {
-		l := int(binary.BigEndian.Uint32(b.ct[:4]))
+		po := len(t.envPrefix())
+		add("prefix", po)
+		l := int(binary.BigEndian.Uint32(b.ct[po : po+4]))
 		add("lenfield", 4)
 		add("encdek", l)
 	} else {
@@ -149,11 +151,15 @@ func mutations(x *runner, t *target, b base, others []base) []mut {
 	add("prepend0", cat([]byte{0}, b.ct), b.ad)
 	add("double", cat(b.ct, b.ct), b.ad)
 	// ---- output prefix: other variants / other key ids / other keys of the keyset
-	if t.Mode == "keyset" {
-		pre := b.k.prefix()
+	{
+		pk := b.k
+		if t.Mode == "envelope" {
+			pk = t.Env
+		}
+		pre := pk.prefix()
 		rest := b.ct[len(pre):]
 		if len(pre) > 0 {
-			for _, id := range []uint32{b.k.ID + 1, b.k.ID - 1, b.k.ID ^ 0x80000000, b.k.ID ^ 0xff, 0, 0xffffffff} {
+			for _, id := range []uint32{pk.ID + 1, pk.ID - 1, pk.ID ^ 0x80000000, pk.ID ^ 0xff, 0, 0xffffffff} {
 				for _, v := range []string{"TINK", "CRUNCHY"} {
 					p := keyCfg{Variant: v, ID: id}.prefix()
 					if string(p) != string(pre) {
@@ -170,7 +176,7 @@ func mutations(x *runner, t *target, b base, others []base) []mut {
 			}
 		}
 		for _, k := range t.Keys {
-			if p := k.prefix(); string(p) != string(pre) {
+			if p := k.prefix(); string(p) != string(pre) && t.Mode == "keyset" {
 				add("prefix:otherkey", cat(p, rest), b.ad)
 			}
 		}
@@ -234,29 +240,33 @@ func mutations(x *runner, t *target, b base, others []base) []mut {
 		}
 		if t.Mode == "envelope" {
 			// another envelope's encrypted DEK in front of this payload, and vice versa
-			ol := int(binary.BigEndian.Uint32(o.ct[:4]))
-			l := int(binary.BigEndian.Uint32(b.ct[:4]))
-			add(fmt.Sprintf("env:dek-of-%d", oi), cat(o.ct[:4+ol], b.ct[4+l:]), b.ad)
+			po := len(t.envPrefix())
+			ol := int(binary.BigEndian.Uint32(o.ct[po : po+4]))
+			l := int(binary.BigEndian.Uint32(b.ct[po : po+4]))
+			add(fmt.Sprintf("env:dek-of-%d", oi), cat(o.ct[:po+4+ol], b.ct[po+4+l:]), b.ad)
 		}
 	}
 	// ---- envelope framing: the encrypted-DEK length field
 	if t.Mode == "envelope" {
-		l := binary.BigEndian.Uint32(b.ct[:4])
-		for _, v := range []uint32{0, 1, l - 1, l + 1, l + 12, uint32(n - 4), uint32(n - 3), uint32(n - 5), uint32(n), 4096, 4097, 0x7fffffff,
-			0x80000000, 0x80000000 | l, 0xffffffff, 0x00010000 | l, l << 8, l << 24} {
+		po := len(t.envPrefix())
+		ep, env := b.ct[:po], b.ct[po:]
+		en := len(env)
+		l := binary.BigEndian.Uint32(env[:4])
+		for _, v := range []uint32{0, 1, l - 1, l + 1, l + 12, uint32(en - 4), uint32(en - 3), uint32(en - 5), uint32(en), uint32(n), 4096, 4097,
+			0x7fffffff, 0x80000000, 0x80000000 | l, 0xffffffff, 0x00010000 | l, l << 8, l << 24} {
 			if v == l {
 				continue
 			}
-			c := clone(b.ct)
+			c := clone(env)
 			binary.BigEndian.PutUint32(c[:4], v)
-			add(fmt.Sprintf("env:len=%d", v), c, b.ad)
+			add(fmt.Sprintf("env:len=%d", v), cat(ep, c), b.ad)
 		}
-		le := clone(b.ct)
+		le := clone(env)
 		binary.LittleEndian.PutUint32(le[:4], l)
-		add("env:len-little-endian", le, b.ad)
-		add("env:no-lenfield", clone(b.ct[4:]), b.ad)
-		add("env:payload-only", clone(b.ct[4+l:]), b.ad)
-		add("env:dek-only", clone(b.ct[:4+l]), b.ad)
+		add("env:len-little-endian", cat(ep, le), b.ad)
+		add("env:no-lenfield", cat(ep, env[4:]), b.ad)
+		add("env:payload-only", cat(ep, env[4+l:]), b.ad)
+		add("env:dek-only", cat(ep, env[:4+l]), b.ad)
 	}
 	return ms
 }
@@ -276,8 +286,8 @@ func garbage(x *runner, t *target, prods []pair) {
 	pre := k.prefix()
 	if t.Mode == "envelope" {
 		d := t.dekCfg()
-		min = 4 + 1 + d.nonceLen() + d.tagLen()
-		pre = []byte{0, 0, 0, 1}
+		min = len(t.envPrefix()) + 4 + 1 + d.nonceLen() + d.tagLen()
+		pre = cat(t.envPrefix(), []byte{0, 0, 0, 1})
 	}
 	for l := 0; l <= min+2; l++ {
 		if !x.full && l > 6 && l < min-2 && (l+int(vt.Seed()))%3 != 0 {
@@ -365,6 +375,9 @@ func replay(path string, x *runner) {
 		return
 	}
 	t := &target{Mode: str("mode"), Route: str("route"), DEK: str("dekTmpl")}
+	if ep := vt.Unhex(str("ep")); len(ep) == 5 {
+		t.Env = keyCfg{Variant: map[byte]string{1: "TINK", 0: "CRUNCHY"}[ep[0]], ID: binary.BigEndian.Uint32(ep[1:])}
+	}
 	ks, _ := e["keys"].([]any)
 	for _, k := range ks {
 		t.Keys = append(t.Keys, cfgFromJSON(k.(map[string]any)))
